@@ -1,6 +1,8 @@
 package main
 
 import (
+	"golang.org/x/tools/go/ssa"
+	"golang.org/x/tools/go/ssa/ssautil"
 	"bufio"
 	"encoding/json"
 	"fmt"
@@ -168,6 +170,7 @@ type funcReport struct {
 type genOutput struct {
 	obls    []*Obligation
 	funcs   []*funcReport
+	callers []string // call sites of contracted functions (with checked preconditions) in functions that are not under contract
 	trusted map[string]bool
 	errs    []string // translation errors (function outside subset after edit)
 	binds   []string // binding errors (contract does not match code)
@@ -417,6 +420,7 @@ func generate(p *Program, cs *ContractSet, prop string, only string) *genOutput 
 			}
 		}
 	}
+	out.callers = unverifiedCallers(p, cs, prop)
 	return out
 }
 
@@ -568,4 +572,84 @@ func writeJSON(path string, v any) {
 	os.MkdirAll(filepath.Dir(path), 0o755)
 	b, _ := json.MarshalIndent(v, "", " ")
 	os.WriteFile(path, append(b, '\n'), 0o644)
+}
+
+// unverifiedCallers lists the call sites of the property's contracted functions that have checked
+// preconditions and are called from a function without any contract: there the precondition is an
+// obligation nobody discharges (modular verification: the callee was proved *given* its requires).
+func unverifiedCallers(p *Program, cs *ContractSet, prop string) []string {
+	want := map[string][]string{} // callee key -> labels of its checked preconditions
+	for key, con := range cs.Funcs {
+		if con.Trusted || !hasProp(con.Props, prop) {
+			continue
+		}
+		base := key
+		if i := strings.Index(base, "@"); i >= 0 {
+			base = base[:i]
+		}
+		for _, cl := range con.Requires {
+			if cl.Assumed {
+				continue
+			}
+			lab := cl.Label
+			if lab == "" {
+				lab = cl.Src
+			}
+			want[base] = append(want[base], lab)
+		}
+	}
+	if len(want) == 0 {
+		return nil
+	}
+	hasContract := map[string]bool{}
+	for key := range cs.Funcs {
+		base := key
+		if i := strings.Index(base, "@"); i >= 0 {
+			base = base[:i]
+		}
+		hasContract[base] = true
+	}
+	seen := map[string]bool{}
+	var out []string
+	for fn := range ssautil.AllFunctions(p.Prog) {
+		if fn.Pkg == nil || !inRepo(fn.Pkg.Pkg.Path()) || hasContract[funcKey(fn)] {
+			continue
+		}
+		if pos := p.Prog.Fset.Position(fn.Pos()); strings.HasSuffix(pos.Filename, "_test.go") {
+			continue
+		}
+		for _, b := range fn.Blocks {
+			for _, in := range b.Instrs {
+				ci, ok := in.(ssa.CallInstruction)
+				if !ok {
+					continue
+				}
+				callee := ci.Common().StaticCallee()
+				if callee == nil {
+					continue
+				}
+				labs, ok := want[funcKey(callee)]
+				if !ok {
+					continue
+				}
+				line := fmt.Sprintf("requires [%s] of %s not checked at its call in %s (no contract)", strings.Join(labs, "; "), shortKey(funcKey(callee)), shortKey(funcKey(fn)))
+				if !seen[line] {
+					seen[line] = true
+					out = append(out, line)
+				}
+			}
+		}
+	}
+	sort.Strings(out)
+	if len(out) > 60 {
+		out = append(out[:60], fmt.Sprintf("... and %d more", len(out)-60))
+	}
+	return out
+}
+
+func shortKey(k string) string {
+	if i := strings.LastIndex(k, "/"); i >= 0 {
+		return k[i+1:]
+	}
+	return k
 }
